@@ -134,7 +134,8 @@ impl WriteOpt {
     }
 
     fn reset_line(&mut self) -> Option<()> {
-        let ident = self.tab.len() as u16 * self.indent;
+        // (saturating: 32768 levels of indentation overflow the u16 product)
+        let ident = (self.tab.len() as u16).saturating_mul(self.indent);
         self.rem_width = self.max_width.checked_sub(ident)?;
         Some(())
     }
@@ -180,7 +181,7 @@ impl<T: WriteSource> WriteSource for SeparatedExprs<'_, T> {
 
         // one per line
         {
-            opt.indent += 1;
+            opt.indent = opt.indent.saturating_add(1);
 
             let mut r = String::new();
 
@@ -193,7 +194,7 @@ impl<T: WriteSource> WriteSource for SeparatedExprs<'_, T> {
                 r += &expr.write(opt.clone())?;
                 r += self.line_end;
             }
-            opt.indent -= 1;
+            opt.indent = opt.indent.saturating_sub(1);
             r += "\n";
             r += &opt.write_indent();
 
